@@ -1215,6 +1215,60 @@ def gen_big_fsm_program(rng, nrules, length):
     return prog
 
 
+def gen_setop_key_program(rng):
+    """Family for C14: the key class of a rule is (a) a class that was the operand of a set operation and was extended
+    afterwards by a class defined later, (b) ANY after ANY was named in a set operation, (c) a class with members the
+    font lacks (compiled with -g) listed before the others. In every case the class the rule is keyed on has glyphs
+    that were not known (or not there) when the compiler first looked at it."""
+    prog = Prog()
+    prog.nglyphs = rng.choice([20, 28])
+    prog.font, _g, prog.cmap = ttf.simple_font(prog.nglyphs)
+    gl = list(range(2, prog.nglyphs))
+    rng.shuffle(gl)
+    kA, kLate, dOnly, outs = gl[0:2], gl[2:5], gl[5:9], gl[9:11]
+    variant = rng.choice(["late_append", "late_append", "any", "bad_first"])
+    stmts = []
+    C = prog.classes
+    C["clsK"] = list(kA)
+    stmts.append("clsK = %s;" % glyph_list_text(kA))
+    C["clsD"] = [g for g in kA + dOnly]
+    stmts.append("clsD = %s;" % glyph_list_text(kA + dOnly))
+    op = rng.choice(["-=", "&="])
+    stmts.append("clsD %s clsK;" % op)
+    C["clsD"] = list(dOnly) if op == "-=" else list(kA)
+    if variant == "late_append":
+        C["clsM"] = list(kLate)
+        stmts.append("clsM = %s;" % glyph_list_text(kLate))
+        stmts.append("clsK += clsM;")
+        C["clsK"] = kA + kLate
+    elif variant == "bad_first":
+        # compiled with -g: code points the font lacks, listed before mapped members
+        stmts[0] = "clsK = (unicode(0x4E00), U+4E01..U+4E03, %s);" % glyph_list_text(kA + kLate)
+        C["clsK"] = kA + kLate
+        prog.compile_opts = ["-g"]
+        stmts[1] = "clsD = %s;" % glyph_list_text(kA + dOnly)
+    C["gX"] = [outs[0]]
+    C["gY"] = [outs[1]]
+    stmts += ["gX = glyphid(%d);" % outs[0], "gY = glyphid(%d);" % outs[1]]
+    key = "clsK"
+    if variant == "any":
+        C["clsX"] = [outs[0]]
+        stmts.append("clsX = glyphid(%d);" % outs[0])
+        stmts.append("clsX -= ANY;")     # (clsX is not used afterwards) the set operation looks at ANY before ANY has received its members
+        key = "ANY"
+    prog.class_order = [k for k in ("clsK", "clsD", "clsM", "gX", "gY", "clsX") if k in C]
+    prog.class_stmts = stmts
+    prog.class_defs = {nm: glyph_list_text(C[nm]) for nm in prog.class_order}
+    p1 = [Rule([Item(cls=key, mod=True, out=("cls", "gX", None)), Item(cls="gY")])] if key == "ANY" else \
+         [Rule([Item(cls=key, mod=True, out=("cls", "gX", None))])]
+    p2 = [Rule([Item(cls="clsD", mod=True, out=("cls", "gY", None))])]
+    passes = [p1, p2]
+    if rng.random() < 0.5:
+        passes = [p2, p1]
+    prog.tables.append(("sub", passes))
+    return prog
+
+
 def add_pos_table_first(rng, prog):
     """A positioning table that uses classes of the substitution rules and is written BEFORE the substitution table."""
     used = [it.cls for (_t, ps) in prog.tables for rules in ps for r in rules for it in r.items if it.cls not in (None, "ANY", "#")]
